@@ -33,7 +33,9 @@ def jobs(tier):
             ("job_dedicated", dict(_name="_add_elements_nonunfied (add-2008-hwcd-4)")),
             ("job_completeness", dict(_name="completeness lemma core + constants")),
             ("job_ladder", dict(_name="ladder step: dedicated addition never meets exceptional operands")),
-            ("job_affine", dict(_name="affine<->extended conversions and identity test"))]
+            ("job_affine", dict(_name="affine<->extended conversions and identity test")),
+            ("job_class_add", dict(_name="Element.add / ElementOfUnknownGroup.add on generic representations", cls_name="Element")),
+            ("job_class_add", dict(_name="ElementOfUnknownGroup.add on generic representations", cls_name="ElementOfUnknownGroup"))]
 
 
 def _vars():
@@ -77,6 +79,36 @@ def job_unified(J):
         # vacuity twin: a deliberately wrong law must be refuted
         rr, m, _ = ctx.solve(z3.Not(X3 * (1 - t) == Z3 * (x1 * y2 + x2 * y1)), timeout_ms=60000)
         J.claim(r, "twin: the wrong law X3(1 - dt) = Z3(..) is refutable (solver is not vacuous)", rr == "sat", **kw)
+
+
+def job_class_add(J, cls_name):
+    """point addition as the element classes perform it (whatever kernel they pick), on generic projective
+    representations of two arbitrary points: the result satisfies the unified law identities"""
+    J.default_fallback = ("kernels", dict(x1=1, y1=1, z1=1, x2=1, y2=1, z2=1))
+    E = loader.MODS["ed25519_basic"]
+    PolyInt.MODULUS = E.Q
+    d = E.d
+    K = getattr(E, cls_name)
+
+    def h(ctx):
+        v, P1, P2 = _points(E, lambda n: PolyInt(z3.Int(n)))
+        return v, K(P1).add(K(P2))
+    for r in J.explore(h, max_paths=40):
+        kw = dict(cex=_cex, oracle="kernels")
+        if r.kind != "ret":
+            J.claim(r, "%s.add does not raise on generic representations (%s)" % (cls_name, type(r.value).__name__), False, **kw)
+            continue
+        v, res = r.value
+        if res is E.Zero:
+            continue                      # the sum was recognised as the identity on this path
+        X3, Y3, Z3, T3 = [T(c) for c in res.XYTZ]
+        x1, y1, z1, x2, y2, z2 = [v[n].t for n in "x1 y1 z1 x2 y2 z2".split()]
+        t = d * x1 * x2 * y1 * y2
+        J.claim(r, "%s.add: X3 (1 + d x1x2y1y2) = Z3 (x1y2 + x2y1)" % cls_name, X3 * (1 + t) == Z3 * (x1 * y2 + x2 * y1), **kw)
+        J.claim(r, "%s.add: Y3 (1 - d x1x2y1y2) = Z3 (y1y2 + x1x2)" % cls_name, Y3 * (1 - t) == Z3 * (y1 * y2 + x1 * x2), **kw)
+        J.claim(r, "%s.add: T3 Z3 = X3 Y3" % cls_name, T3 * Z3 == X3 * Y3, **kw)
+        J.claim(r, "%s.add: Z3 = 4 z1^2 z2^2 (1 - d x1x2y1y2)(1 + d x1x2y1y2)  (never 0 on curve points)" % cls_name,
+                Z3 == 4 * z1 * z1 * z2 * z2 * (1 - t) * (1 + t), **kw)
 
 
 def _cert_claims(J, ctx, name, goals, premises, gens_order):
@@ -367,6 +399,20 @@ def oracle_kernels(x1, y1, z1, x2, y2, z2):
                 if S[2] % Q == 0 or aff(S) != R.ed_add(P, R2) or (S[0] * S[1] - S[2] * S[3]) % Q:
                     return (True, "_add_elements_nonunfied wrong on %s + %s (difference not of order 1,2,4)" % (
                         R.ed_enc(P).hex()[:16], R.ed_enc(R2).hex()[:16]))
+    # the element classes: the same point in two different projective representations, and opposite points
+    for P in [p_ for p_ in pts if R.ed_in_subgroup(p_) and p_ != R.ED_ZERO][:6]:
+        for (za, zb) in ((1, 2), (3, 1), (5, 7)):
+            for cls in (E.Element, E.ElementOfUnknownGroup):
+                e1, e2, e3 = cls(ext(P, za)), cls(ext(P, zb)), cls(ext(R.ed_neg(P), zb))
+                try:
+                    s12, s13 = e1.add(e2), e1.add(e3)
+                    b12, b13 = s12.to_bytes(), s13.to_bytes()
+                except Exception as ex:
+                    return (True, "%s.add raised %s for one point in two representations" % (cls.__name__, type(ex).__name__))
+                if b12 != R.ed_enc(R.ed_add(P, P)):
+                    return (True, "%s.add of the same point in two projective representations is not 2P (P=%s)" % (cls.__name__, R.ed_enc(P).hex()[:16]))
+                if b13 != R.ed_enc(R.ED_ZERO):
+                    return (True, "%s.add of opposite points in different representations is not the identity" % cls.__name__)
     # scalar multiplication ladders against the reference
     for k in (0, 1, 2, 3, 7, 8, 255, R.L - 1, R.L - 2, (R.L - 1) // 2, 2 ** 251 + 12345):
         got = aff(E.scalarmult_element(ext(R.ED_BASE, 1), k)) if k else (0, 1)
